@@ -51,6 +51,43 @@ Proof.
 Qed.
 Print Assumptions c03_clean_population_clean.
 
+(* externally mapped instances (STEPcomplex::STEPread): what reading a part reported reaches the instance ... *)
+Theorem c03_complex_keeps_part_error : forall own parts p,
+  In p parts -> part_counts p = true -> complex_sev own parts <= fst p.
+Proof. exact complex_sev_keeps. Qed.
+Print Assumptions c03_complex_keeps_part_error.
+
+(* ... the only severity of a part that does not is WARNING when every complaining attribute is derived by another part *)
+Theorem c03_complex_tolerance_is_exact : forall p, fst p < SEVERITY_NULL ->
+  (part_counts p = false <-> fst p = SEVERITY_WARNING /\ only_derived_values_given (snd p) = true).
+Proof. exact part_tolerated_iff. Qed.
+Print Assumptions c03_complex_tolerance_is_exact.
+
+Theorem c03_complex_other_fault_not_hidden : forall attrs a,
+  In a attrs -> fst a < SEVERITY_USERMSG -> snd a = false -> only_derived_values_given attrs = false.
+Proof. exact not_derived_never_tolerated. Qed.
+Print Assumptions c03_complex_other_fault_not_hidden.
+
+(* so a file with such a part is rejected, wherever the instance stands *)
+Theorem c03_bad_complex_part_rejected : forall sev0 os end_ok own parts p,
+  In (Complex (complex_sev own parts)) os -> In p parts -> part_counts p = true -> fst p <= SEVERITY_INCOMPLETE ->
+  exit_status (snd (append_file COMPLEX_APPENDS sev0 os end_ok)) = 1.
+Proof.
+  intros sev0 os end_ok own parts p Hin Hp Hc Hs. apply c03_exit_nonzero.
+  exists (Complex (complex_sev own parts)). split; [exact Hin|].
+  cbn [bad]. pose proof (complex_sev_keeps own parts p Hp Hc). Lia.lia.
+Qed.
+Print Assumptions c03_bad_complex_part_rejected.
+
+Example c03_complex_example :
+  (* UNIT_B(7) beside SI_B: tolerated *)
+  complex_sev SEVERITY_NULL [(SEVERITY_NULL, [(SEVERITY_NULL, false)]); (SEVERITY_NULL, [(SEVERITY_NULL, false)]); (SEVERITY_WARNING, [(SEVERITY_WARNING, true)])] = SEVERITY_NULL /\
+  (* LEN_B(12) beside it: not hidden *)
+  complex_sev SEVERITY_NULL [(SEVERITY_WARNING, [(SEVERITY_WARNING, false)]); (SEVERITY_NULL, [(SEVERITY_NULL, false)]); (SEVERITY_WARNING, [(SEVERITY_WARNING, true)])] = SEVERITY_WARNING /\
+  (* a derived attribute and another one of the same part complain *)
+  complex_sev SEVERITY_NULL [(SEVERITY_WARNING, [(SEVERITY_WARNING, true); (SEVERITY_WARNING, false)])] = SEVERITY_WARNING.
+Proof. vm_compute. repeat split. Qed.
+
 Example c03_example :
   snd (append_file COMPLEX_APPENDS SEVERITY_NULL [Simple SEVERITY_NULL; Complex SEVERITY_WARNING; Simple SEVERITY_NULL] true) = SEVERITY_WARNING /\
   snd (append_file COMPLEX_APPENDS SEVERITY_NULL [Simple SEVERITY_NULL; NotCreated] true) = SEVERITY_WARNING /\
